@@ -465,6 +465,26 @@ class SStr:
             return True
         return bool(SStr(self.c[-len(p):]) == p)
 
+    def _case(self, up):
+        out = []
+        for ch in self.c:
+            if isinstance(ch, str):
+                out.append(ch.upper() if up else ch.lower())
+                if len(out[-1]) != 1:
+                    raise Unsupported("case mapping changes the length")
+                continue
+            if not sym._forced(z3.ULT(ch, 128)):
+                raise Unsupported("case mapping of a possibly non-ASCII symbolic character")
+            lo, hi, d = (0x61, 0x7A, -32) if up else (0x41, 0x5A, 32)
+            out.append(z3.If(z3.And(z3.UGE(ch, lo), z3.ULE(ch, hi)), ch + z3.BitVecVal(d % (1 << 21), 21), ch))
+        return SStr(out, self.wd)
+
+    def upper(self):
+        return self._case(True)
+
+    def lower(self):
+        return self._case(False)
+
     def encode(self, enc="utf-8", errors="strict"):
         e = enc.lower().replace("_", "-")
         if e in ("utf-8", "utf8"):
